@@ -3,6 +3,8 @@ package lakesim
 import (
 	"context"
 	"fmt"
+	"github.com/brimdata/super/compiler"
+	"github.com/brimdata/super/runtime"
 	"math/rand"
 	"os"
 	"runtime/debug"
@@ -45,6 +47,16 @@ type Client struct {
 	H    *simdisk.Handle
 	Root *lake.Root
 	API  lakeapi.Interface
+	comp runtime.Compiler
+}
+
+// Compiler returns the client's lake compiler, made once: making one loads
+// the system's CA bundle for the S3 client (tens of milliseconds).
+func (c *Client) Compiler() runtime.Compiler {
+	if c.comp == nil {
+		c.comp = compiler.NewLakeCompiler(c.Root)
+	}
+	return c.comp
 }
 
 type seededReader struct{ s uint64 }
